@@ -321,29 +321,25 @@ Section HB.
     set (tr := (l1 ++ (t1, a1) :: m1 ++ (t1, LUnlock) :: m2 ++ (t2, LLock) :: m3) ++ (t2, a2) :: l3).
     set (pu := List.length (l1 ++ (t1, a1) :: m1)).
     set (pl := List.length (l1 ++ (t1, a1) :: m1 ++ (t1, LUnlock) :: m2)).
+    assert (Hmid : forall (pre : list ev) x post l, l = pre ++ x :: post -> nth_error l (List.length pre) = Some x)
+      by (intros ? ? ? ? ->; apply nth_error_mid).
     assert (Hpu : nth_error tr pu = Some (t1, LUnlock)).
-    { unfold tr, pu. rewrite <- app_assoc. simpl.
-      replace (l1 ++ (t1, a1) :: (m1 ++ (t1, LUnlock) :: m2 ++ (t2, LLock) :: m3) ++ (t2, a2) :: l3)
-        with ((l1 ++ (t1, a1) :: m1) ++ (t1, LUnlock) :: (m2 ++ (t2, LLock) :: m3) ++ (t2, a2) :: l3)
-        by (rewrite <- !app_assoc; simpl; rewrite <- !app_assoc; reflexivity).
-      apply nth_error_mid. }
+    { unfold pu. apply Hmid with (post := m2 ++ (t2, LLock) :: m3 ++ (t2, a2) :: l3).
+      unfold tr. repeat (rewrite <- ?app_assoc; simpl). reflexivity. }
     assert (Hpl : nth_error tr pl = Some (t2, LLock)).
-    { unfold tr, pl.
-      replace ((l1 ++ (t1, a1) :: m1 ++ (t1, LUnlock) :: m2 ++ (t2, LLock) :: m3) ++ (t2, a2) :: l3)
-        with ((l1 ++ (t1, a1) :: m1 ++ (t1, LUnlock) :: m2) ++ (t2, LLock) :: m3 ++ (t2, a2) :: l3)
-        by (rewrite <- !app_assoc; simpl; rewrite <- !app_assoc; simpl; rewrite <- !app_assoc; reflexivity).
-      apply nth_error_mid. }
+    { unfold pl. apply Hmid with (post := m3 ++ (t2, a2) :: l3).
+      unfold tr. repeat (rewrite <- ?app_assoc; simpl). reflexivity. }
     assert (Hi' : nth_error tr i = Some (t1, a1)).
-    { unfold tr. rewrite <- L1. rewrite <- app_assoc. simpl. apply nth_error_mid. }
+    { rewrite <- L1. apply Hmid with (post := m1 ++ (t1, LUnlock) :: m2 ++ (t2, LLock) :: m3 ++ (t2, a2) :: l3).
+      unfold tr. repeat (rewrite <- ?app_assoc; simpl). reflexivity. }
     assert (Hj' : nth_error tr j = Some (t2, a2)).
-    { unfold tr. rewrite <- Lp. apply nth_error_mid. }
+    { rewrite <- Lp. apply Hmid with (post := l3). reflexivity. }
     assert (Lens : i < pu /\ pu < pl /\ pl < j).
-    { unfold pu, pl. rewrite <- Lp, <- L1. rewrite !app_length. simpl. rewrite !app_length. simpl.
-      rewrite !app_length. simpl. lia. }
+    { unfold pu, pl. rewrite <- Lp, <- L1. repeat (rewrite app_length; simpl). unfold ev in *. lia. }
     destruct Lens as (H1 & H2 & H3).
     apply t_trans with pu; [|apply t_trans with pl]; apply t_step; (split; [assumption|]).
-    - exists t1, a1, t1, LUnlock. auto.
-    - exists t1, LUnlock, t2, LLock. auto.
-    - exists t2, LLock, t2, a2. auto.
+    - exists t1, a1, t1, LUnlock. repeat split; auto.
+    - exists t1, LUnlock, t2, LLock. repeat split; auto.
+    - exists t2, LLock, t2, a2. repeat split; auto.
   Qed.
 End HB.
